@@ -317,11 +317,26 @@ def equilibrated_kkt(u):
     Dw = u.vec("D", n + m, kind="int")
 
     def ss(it, K):
+        # contract of scale_symmetric (proved in C20.scale_symmetric): returns equilibrating weights, or raises the
+        # deliberate Exception("Equilibration failed to converge") when the iteration does not settle
         got["K"] = K
+        if it.path.choose("equilibration fails to converge"):
+            got["failed"] = True
+            from pyvc.values import ExcVal, PyRaise
+
+            raise PyRaise(ExcVal(Exception, ("Equilibration failed to converge",)), origin="scale_symmetric")
         return Dw
 
     u.it.abstract[SC + "scale_symmetric"] = ss
-    sc = u.call(SC + "Scaling.from_equilibrated_kkt", H, J)
+    kind, sc = u.raised(lambda: u.call(SC + "Scaling.from_equilibrated_kkt", H, J))
+    # C20 speaks about the scaling "whenever the KKT equilibration returns": a scaling object may come out ONLY of a
+    # converged equilibration - a failed one must stay a failure, not turn into some other set of weights
+    u.ensure((kind == "raise") == bool(got.get("failed")), "a_scaling_is_returned_iff_the_equilibration_converged(its_failure_propagates)", desc=f"equilibration failed: {bool(got.get('failed'))}, from_equilibrated_kkt: {kind}")
+    if kind == "raise":
+        u.ensure(sc.exc.cls is Exception and sc.exc.args == ("Equilibration failed to converge",), "raises_only_the_equilibration's_own_error")
+        return
+    if got.get("failed"):
+        return
     K = got["K"]
     e, eH, eJ = matmodel.entry_fn(u.it, K), matmodel.entry_fn(u.it, H), matmodel.entry_fn(u.it, J)
     i, j = u.int("i"), u.int("j")
